@@ -34,12 +34,16 @@ pub mod h_lemire;
 pub mod h_float_fmt;
 #[cfg(not(feature = "compact"))]
 pub mod h_digit_count;
+#[cfg(feature = "radix")]
+pub mod h_slow;
+pub mod h_mantissa;
 
 pub type Harness = (&'static str, fn());
 
 pub fn all_harnesses() -> Vec<Harness> {
     let mut v: Vec<Harness> = Vec::new();
     v.extend_from_slice(h_int_write::HARNESSES);
+    v.extend_from_slice(h_int_write::exact64::HARNESSES);
     v.extend_from_slice(h_int_parse::HARNESSES);
     #[cfg(feature = "power-of-two")]
     v.extend_from_slice(h_int_parse::pow2::HARNESSES);
@@ -87,6 +91,9 @@ pub fn all_harnesses() -> Vec<Harness> {
     v.extend_from_slice(h_digit_count::pow2::HARNESSES);
     #[cfg(all(not(feature = "compact"), feature = "radix"))]
     v.extend_from_slice(h_digit_count::naive::HARNESSES);
+    #[cfg(feature = "radix")]
+    v.extend_from_slice(h_slow::HARNESSES);
+    v.extend_from_slice(h_mantissa::HARNESSES);
     v
 }
 
